@@ -235,7 +235,19 @@ def replay(case, ctx):
         big = ir.is_big(None if sp.startswith("None") else sp, opts)
         pre, post = layout(case["position"])
         ctx.ev()
-        if "raw" in case:
+        if case["position"] == "via-callable" and sp.startswith("None/class-"):
+            # only the inverse relations are asserted there
+            if "raw" in case:
+                raw = case["raw"]
+                got = cls.unpack(raw).x
+                back = cls(s0=raw[0], x=got).pack()
+                if back != raw:
+                    ctx.violation(dict(case, sig="decode-not-inverse", desc="bytes %r decode to %r which encodes to %r" % (raw, got, back)))
+            else:
+                out = cls(x=case["value"]).pack()
+                if cls.unpack(out).x != case["value"]:
+                    ctx.violation(dict(case, sig="encode-not-inverse", desc="%r packs to %r which decodes to %r" % (case["value"], out, cls.unpack(out).x)))
+        elif "raw" in case:
             raw = case["raw"]
             got = cls.unpack(raw).x
             if case["position"] == "in-repeated":
